@@ -1,6 +1,7 @@
 use std::fs;
 use std::fs::Metadata;
 use std::io;
+use std::sync::{Mutex, MutexGuard};
 
 use filetime::FileTime;
 
@@ -13,12 +14,26 @@ struct XAttr {
     value: Option<Vec<u8>>,
 }
 
+lazy_static::lazy_static! {
+    /// Serialize the commands that work in the same directory.
+    /// A directory is found by the hash of its path, so unrelated directories may share a lock.
+    static ref DIR_LOCKS: Vec<Mutex<()>> = (0..64).map(|_| Mutex::new(())).collect();
+}
+
+fn lock_dir(dir: &crate::path::Path) -> MutexGuard<'static, ()> {
+    let index = dir.hash128() as usize % DIR_LOCKS.len();
+    DIR_LOCKS[index].lock().unwrap_or_else(|e| e.into_inner())
+}
+
 /// Calls OS-specific reflink implementations with an option to call the more generic
 /// one during testing one on Linux ("crosstesting").
 /// The destination file is allowed to exist.
 pub fn reflink(src: &PathAndMetadata, dest: &PathAndMetadata, log: &dyn Log) -> io::Result<()> {
     // Remember original metadata of the parent directory:
     let dest_parent = dest.path.parent();
+    // Another command that creates its temporary file in the same directory at the same time
+    // would remember or restore the timestamp this command has changed.
+    let _dir_lock = dest_parent.map(|p| lock_dir(p));
     let dest_parent_metadata = dest_parent.map(|p| p.to_path_buf().metadata());
 
     // Call reflink:
